@@ -158,7 +158,8 @@ dev_impl! {
                 }
                 PoolOp::IdentityOn { i } => {
                     let ty = pick(i).1.tgt_type();
-                    (Some(OH::<K>::identity(Self::sf(ty.clone()))), Some(Plain::identity(&ty)))
+                    let got = if step % 2 == 0 { OH::<K>::identity(Self::sf(ty.clone())) } else { <OH<K> as Arrow>::identity(Self::sf(ty.clone())) };
+                    (Some(got), Some(Plain::identity(&ty)))
                 }
                 PoolOp::TwistAfter { i, j } => {
                     let (a, b) = (pick(i), pick(j));
@@ -170,7 +171,11 @@ dev_impl! {
                 PoolOp::SpiderOn { i, s, t } => {
                     let w = pick(i).1.w.clone();
                     let (s, t) = (fit(s, w.len()), fit(t, w.len()));
-                    let got = <OH<K> as Spider<K>>::spider(Self::ff(s.clone(), w.len()), Self::ff(t.clone(), w.len()), Self::sf(w.clone()));
+                    let got = if step % 2 == 0 {
+                        <OH<K> as Spider<K>>::spider(Self::ff(s.clone(), w.len()), Self::ff(t.clone(), w.len()), Self::sf(w.clone()))
+                    } else {
+                        OH::<K>::spider(Self::ff(s.clone(), w.len()), Self::ff(t.clone(), w.len()), Self::sf(w.clone()))
+                    };
                     (got, Plain::spider(&s, &t, &w))
                 }
                 PoolOp::HalfSpiderOn { i, s } => {
@@ -322,9 +327,11 @@ pub fn lax_pool(c: &Case) -> Vec<StepObs> {
             }
             PoolOp::Tensor { i, j } => {
                 let (a, b) = (pick(i), pick(j));
-                let t = match step % 3 {
+                let t = match step % 4 {
                     0 => a.0.tensor(&b.0),
                     1 => &a.0 | &b.0,
+                    // the trait-level method (shadowed by the inherent one in a method call)
+                    2 => <LOH as Monoidal>::tensor(&a.0, &b.0),
                     _ => {
                         let mut x = a.0.clone();
                         x.tensor_assign(b.0.clone());
@@ -339,7 +346,8 @@ pub fn lax_pool(c: &Case) -> Vec<StepObs> {
             }
             PoolOp::IdentityOn { i } => {
                 let ty = pick(i).1.tgt_type();
-                (Some(<LOH as Arrow>::identity(ty.clone())), Some(Plain::identity(&ty)))
+                let got = if step % 2 == 0 { <LOH as Arrow>::identity(ty.clone()) } else { LOH::identity(ty.clone()) };
+                (Some(got), Some(Plain::identity(&ty)))
             }
             PoolOp::TwistAfter { i, j } => {
                 let (a, b) = (pick(i), pick(j));
@@ -350,7 +358,12 @@ pub fn lax_pool(c: &Case) -> Vec<StepObs> {
             PoolOp::SpiderOn { i, s, t } => {
                 let w = pick(i).1.w.clone();
                 let (s, t) = (fit(s, w.len()), fit(t, w.len()));
-                (LOH::spider(ff(s.clone(), w.len()), ff(t.clone(), w.len()), w.clone()), Plain::spider(&s, &t, &w))
+                let got = if step % 2 == 0 {
+                    LOH::spider(ff(s.clone(), w.len()), ff(t.clone(), w.len()), w.clone())
+                } else {
+                    <LOH as Spider<VecKind>>::spider(ff(s.clone(), w.len()), ff(t.clone(), w.len()), w.clone())
+                };
+                (got, Plain::spider(&s, &t, &w))
             }
             PoolOp::HalfSpiderOn { i, s } => {
                 let w = pick(i).1.w.clone();
@@ -705,7 +718,7 @@ impl Check for C05 {
         out
     }
     fn rule() -> &'static str {
-        "Pool machine: each run seeds a pool with 1-3 generated diagrams and applies 1-6 (3/4 of the runs) or up to 30/40 random public operations to pool members, putting results back (pool of 6, diagrams capped at 28 nodes): compose (arbitrary members: mostly a type mismatch that must be refused), sandwich (p⊗id);(id⊗q), p;p†, tensor, dagger, identity, symmetry after a tensor, spider / half_spider over a member's node labels, singleton, tensor_operations, functor application (the run's generated functor), optic application and adapt (the run's generated optic, compared with the reference substitution of lenses), strict->lax->strict (Vec only); the same sequence runs through the lax public API on the Vec device (operands keep their pending unifications). After every step on sim/control, vec and 1-2 perturbed schedules: result deep-well-formed (one source and one target list per hyperedge, sizes add up, codomains and every node reference in range; from raw fields), typed as promised, isomorphic to its plain reference twin. Constructors: raw parts of a well-formed base with at most one datum flipped (table entry = codomain, codomain shrunk, size-map codomain / value count / segment size / counts / incidence codomain / label count / leg codomain off by one) handed to FiniteFunction::new, IndexedCoproduct::new / from_semifinite, Operations::new, Hypergraph::new, OpenHypergraph::new on both devices; must accept iff the documented condition holds. Non-trivial iff there is an operation and a non-empty seed; distinct = distinct (workload fingerprint, device decision fingerprint)."
+        "Pool machine: each run seeds a pool with 1-3 generated diagrams and applies 1-6 (3/4 of the runs) or up to 30/40 random public operations to pool members, putting results back (pool of 6, diagrams capped at 28 nodes): compose (arbitrary members: mostly a type mismatch that must be refused), sandwich (p⊗id);(id⊗q), p;p†, tensor, dagger, identity, symmetry after a tensor, spider / half_spider over a member's node labels, singleton, tensor_operations, functor application (the run's generated functor), optic application and adapt (the run's generated optic, compared with the reference substitution of lenses), strict->lax->strict (Vec only); the same sequence runs through the lax public API on the Vec device (operands keep their pending unifications); where an inherent method shadows a trait method of the same name (identity, spider, lax tensor) both are called, alternating by step. After every step on sim/control, vec and 1-2 perturbed schedules: result deep-well-formed (one source and one target list per hyperedge, sizes add up, codomains and every node reference in range; from raw fields), typed as promised, isomorphic to its plain reference twin. Constructors: raw parts of a well-formed base with at most one datum flipped (table entry = codomain, codomain shrunk, size-map codomain / value count / segment size / counts / incidence codomain / label count / leg codomain off by one) handed to FiniteFunction::new, IndexedCoproduct::new / from_semifinite, Operations::new, Hypergraph::new, OpenHypergraph::new on both devices; must accept iff the documented condition holds. Non-trivial iff there is an operation and a non-empty seed; distinct = distinct (workload fingerprint, device decision fingerprint)."
     }
     fn assumptions() -> Vec<&'static str> {
         vec![
